@@ -261,7 +261,8 @@ Section AesSafe.
     - split; [apply no_panic_ok|]. intros ? ? [= <- <-]. now split.
     - destruct (H (a_inner s) (N.min (a_remaining s) n) Hi) as [Hn Hp].
       destruct (ird (a_inner s) (N.min (a_remaining s) n)) as [[ct i1]|e|p]; cbn [bind].
-      + destruct (ctr_crypt blk (a_ctr s) ct) as [c' pt].
+      + destruct ((len ct =? 0) && negb (N.min (a_remaining s) n =? 0)); [split; [apply no_panic_err|discriminate]|].
+        destruct (ctr_crypt blk (a_ctr s) ct) as [c' pt].
         destruct (a_remaining s - len ct =? 0) eqn:Er2.
         * destruct (a_final s) eqn:Ef; [specialize (Hf eq_refl); lia|].
           destruct (read_exact_np ird Inv H (S (N.to_nat 10)) i1 10 (Hp _ _ eq_refl) ltac:(lia)) as [A B].
